@@ -179,7 +179,12 @@ func (r *rdbdriver) GetLocationByMap(ipnet *net.IPNet, mapID []byte, context Con
 	fullKey := make([]byte, 4+2+net.IPv6len+1) // 4 bytes for prefix, 2 bytes for mapID, and the rest is IP and masklen
 	copy(fullKey, ipMapRangePointKeyElement)   // prefix, 4 bytes
 	copy(fullKey[4:], mapID)                   // mapID, 2 bytes
-	copy(fullKey[6:], ipnet.IP.To16())
+	// search with the network address: bits beyond the prefix (possible in a client subnet option) must not take part
+	netIP := ipnet.IP.Mask(ipnet.Mask)
+	if netIP == nil {
+		netIP = ipnet.IP
+	}
+	copy(fullKey[6:], netIP.To16())
 	reqMaskLen, _ := ipnet.Mask.Size()
 	if isIPv4(ipnet.IP) {
 		reqMaskLen += 128 - 32
